@@ -546,6 +546,14 @@ def finding_probes(ctx):
     for f in ctx.findings:
         if f.get('status') != 'open':
             continue
+        if 'mu_spec' in f['witness']:
+            term, info = observe_mu(f['witness']['mu_spec'], random.Random('w'))
+            tags = set(ctx.run_cases('finding-' + f['id'], MU_IMPORTS, 'mcase', [term], 'verdict_mu')[0])
+            if f['expect_tag'] in tags and 50 not in tags:
+                ctx.known(f['id'])
+            else:
+                ctx.notes.append(f"finding_not_reproduced {f['id']} (tags {sorted(tags)})")
+            continue
         if 'corpus' in f['witness']:
             term, info = observe_pair(f['witness']['corpus'], random.Random('w'), corpus_dir(ctx))
             t = info.get('reparse') if f['witness'].get('reparse') else term
@@ -969,6 +977,249 @@ def gradient_oracle(ctx, n):
     return len(specs)
 
 
+# ------------------------------------------------------------------ mu_reference_model (modelled: tags 50-54)
+MU_IMPORTS = IMPORTS          # the definitions live in C07.Model / C07.Check
+MTAGS = {50: 'mu_reference_model differs from model (selection / insertion / skip rule)',
+         51: 'mu_reference_model changes the value of a symbol of the original program',
+         52: "mu_reference_model: sympy's (mu_expr, new_def) do not solve new_def[mu := mu_expr] = old_def",
+         53: 'mu_reference_model raises', 54: 'mu_reference_model introduces nan into the model'}
+
+
+def gen_mu_spec(rng):
+    """Parameter statements of the shapes mu-referencing meets: T*exp(eta), T + eta, T*(1 + eta), exp(T + eta), two
+    etas, parameters that depend on other eta-parameters, etas hidden behind an alias, Piecewise definitions, already
+    mu-referenced statements, reassignments; optional compartmental system; IIV / joint / IOV layouts."""
+    rv = rng.choice(['sep', 'sep', 'joint3', 'iov', 'iovfirst'])
+    stmts, params, tvs = [], [], []
+    for k in range(rng.choice([0, 1, 2])):
+        tv = f'TV{k + 1}'
+        stmts.append([tv, rng.choice([f'TH{k + 1}*WGT', f'TH{k + 1}*(WGT/2)', f'TH{k + 1}',
+                                      f'Piecewise((TH{k + 1}*2, APGR < 5), (TH{k + 1}, True))'])])
+        tvs.append(tv)
+    etas = rng.sample(ETAS, rng.choice([1, 2, 3]))
+    names = ['CL', 'V', 'D']
+    for eta, pn in zip(etas, names):
+        T = rng.choice(tvs + [rng.choice(THETAS), f'{rng.choice(THETAS)}*WGT'])
+        form = rng.choice(['exp', 'exp', 'exp', 'add', 'prop', 'expsum', 'two', 'dep', 'alias', 'pw', 'already',
+                           'pow', 'reassign', 'depsame', 'reassignsame'])
+        if form == 'exp':
+            stmts.append([pn, f'({T})*exp({eta})'])
+        elif form == 'add':
+            stmts.append([pn, f'({T}) + {eta}'])
+        elif form == 'prop':
+            stmts.append([pn, f'({T})*(1 + {eta})'])
+        elif form == 'expsum':
+            stmts.append([pn, f'exp({T} + {eta})'])
+        elif form == 'two':
+            stmts.append([pn, f'({T})*exp({eta} + {rng.choice(ETAS)})'])
+        elif form == 'dep' and params:
+            stmts.append([pn, f'({rng.choice(params)})*exp({eta})'])
+        elif form == 'depsame':          # a second statement with the SAME eta that reads the first one
+            stmts.append(['B', f'({T}) + {eta}'])
+            stmts.append([pn, f'B*exp({eta})'])
+        elif form == 'reassignsame':     # the symbol is assigned twice, both times with the eta
+            stmts.append([pn, f'({T})*exp({eta})'])
+            stmts.append([pn, f'{pn}*exp({eta})'])
+        elif form == 'alias':
+            stmts.append(['A', eta])
+            stmts.append([pn, f'({T})*exp(A)'])
+        elif form == 'pw':
+            stmts.append([pn, f'Piecewise((({T})*exp({eta}), WGT > 2), (({rng.choice(THETAS)})*exp({eta}), True))'])
+        elif form == 'already':
+            k = ETAS.index(eta) + 1
+            stmts.append([f'mu_{k}', f'log({T})'])
+            stmts.append([pn, f'exp(mu_{k} + {eta})'])
+        elif form == 'pow':
+            stmts.append([pn, f'({T})*{eta}**2'])
+        else:
+            stmts.append([pn, f'({T})*exp({eta})'])
+            stmts.append([pn, f'{pn}*2'])
+        params.append(pn)
+    if rng.random() < 0.3:
+        stmts.append(['ODE', {'ke': f'{params[0]}/{params[-1]}' if len(params) > 1 else params[0], 'ka': None,
+                              'lag': None, 'bio': None}])
+        stmts.append(['F', 'A_CENTRAL(t)/' + params[-1]])
+        stmts.append(['Y', 'F + F*EPS1'])
+    else:
+        stmts.append(['IPRED', ' + '.join(params)])
+        stmts.append(['Y', rng.choice(['IPRED + IPRED*EPS1', 'IPRED + EPS1', f'IPRED*exp({rng.choice(ETAS)}) + EPS1'])])
+    return {'stmts': stmts, 'fix': {}, 'rvs': rv, 'renames': []}
+
+
+def observe_mu(spec, prng, mods=None):
+    from pharmpy.model import Assignment
+    from pharmpy.modeling import mu_reference_model
+    f = (mods or {}).get('mu_reference_model', mu_reference_model)
+    names = ct.Names()
+    try:
+        model = build_model(spec)
+    except (ValueError, RecursionError, ZeroDivisionError, sympy.SympifyError) as e:
+        raise InvalidSpec(str(e)[:100])
+    before = list(model.statements)
+    etas = model.random_variables.etas.names
+    info = {'errors': [], 'rewritten': 0}
+    table = []
+    try:
+        after = list(f(model).statements)
+    except RuntimeError:
+        after_t = 'OEngine'
+    except Exception as e:
+        info['errors'].append(type(e).__name__)
+        after_t = 'OOther'
+    else:
+        after_t = f'(OOk {stms_term(after, names)})'
+        # read sympy's answers off the result: statement i became `mu_k = mu_expr ; P = new_def`
+        j = 0
+        for i, st in enumerate(before):
+            if j >= len(after):
+                break
+            a = after[j]
+            if (isinstance(st, Assignment) and isinstance(a, Assignment) and a.symbol != st.symbol
+                    and re.fullmatch(r'mu_\d+', str(a.symbol)) and j + 1 < len(after)
+                    and isinstance(after[j + 1], Assignment) and after[j + 1].symbol == st.symbol):
+                table.append(ct.pair(ct.nat(i), ct.pair(cexpr(a.expression, names),
+                                                        cexpr(after[j + 1].expression, names))))
+                j += 2
+            else:
+                j += 1
+        info['rewritten'] = len(table)
+    prog = stms_term(before, names)
+    etat = ct.lst([ct.pair(names.p(e), names.p(f'mu_{k}')) for k, e in enumerate(etas, 1)])
+    rvn = set(model.random_variables.names)
+    undef = names.p('__UNDEF')
+    allnames = [names.name(i) for i in range(1, names.next)]
+    pts = []
+    for _ in range(8):
+        pt = {n: (prng.choice(SMALL) if n in rvn or re.fullmatch(r'mu_\d+', n) else prng.choice(POW2))
+              for n in allnames if n != '__UNDEF'}
+        if '__EXP1' in pt:
+            pt['__EXP1'] = F(2)
+        pts.append(pt)
+    term = (f"(mkM {prog}\n  {etat}\n  {ct.lst(table)}\n  {after_t} {undef}\n  "
+            + ct.lst([sc.env(pt, names) for pt in pts]) + ")")
+    return term, info
+
+
+def mu_oracle(ctx, n, mods=None, label='mu'):
+    prng = random.Random(f'{ctx.seed}-mu-pts')
+    reg = [json.loads(p.read_text()) for p in sorted((VERIF / 'regress' / 'C07').glob('mu-*.json'))]
+    specs, terms, infos = [], [], []
+    for spec in reg + [gen_mu_spec(ctx.rng) for _ in range(n)]:
+        try:
+            term, info = observe_mu(spec, prng, mods)
+        except (sc.Unconvertible, InvalidSpec, TypeError, RecursionError):
+            ctx.coverage['mu_skipped'] = ctx.coverage.get('mu_skipped', 0) + 1
+            continue
+        specs.append(spec)
+        terms.append(term)
+        infos.append(info)
+    verdicts = ctx.run_cases(label, MU_IMPORTS, 'mcase', terms, 'verdict_mu', shard=40)
+    stats = {'programs': len(specs), 'rewritten_statements': 0, 'unchanged_programs': 0, 'inconclusive': 0,
+             'raised': {}, 'mu_not_fresh': 0, 'known': 0}
+    for spec, v, info in zip(specs, verdicts, infos):
+        tags = set(v)
+        stats['rewritten_statements'] += sum(t - 2000 for t in tags if t >= 2000)
+        stats['unchanged_programs'] += 1 if info['rewritten'] == 0 else 0
+        stats['inconclusive'] += 1 if 1050 in tags else 0
+        stats['mu_not_fresh'] += 1 if 250 in tags else 0
+        for e in info['errors']:
+            stats['raised'][e] = stats['raised'].get(e, 0) + 1
+        if 50 in tags:
+            ctx.broken.append('correspondence C07 model vs implementation: ' + MTAGS[50] + ' on ' + json.dumps(spec['stmts']))
+            ctx.coverage.setdefault('corr_disagreements', []).append({'mu_spec': spec, 'tags': sorted(tags)})
+        for t in (51, 52, 53, 54):
+            if t in tags:
+                if t in (52, 54, 51) and (52 in tags or 54 in tags) and ctx.open_finding('C07-MU-REFERENCE-PIECEWISE-NAN') \
+                        and any('Piecewise' in str(r) for l, r in spec['stmts'] if l != 'ODE'):
+                    stats['known'] += 1
+                    kh = ctx.coverage.setdefault('known_hits', {})
+                    kh['C07-MU-REFERENCE-PIECEWISE-NAN'] = kh.get('C07-MU-REFERENCE-PIECEWISE-NAN', 0) + 1
+                    break
+                ctx.violation(MTAGS[t], {'mu_spec': spec, 'tags': sorted(tags)})
+    ctx.coverage['mu_reference'] = stats
+    return specs, verdicts
+
+
+# ------------------------------------------------------------------ greekify_model: the renaming table (tags 60, 251-253)
+def observe_greek(model, greekify=None):
+    import pharmpy.modeling as pm
+    cap = {}
+    orig = pm.rename_symbols
+
+    def spy(m, new_names):
+        cap['d'] = [(str(opaque(k)), str(opaque(v))) for k, v in new_names.items()]
+        return orig(m, new_names)
+    pm.rename_symbols = spy
+    try:
+        (greekify or pm.greekify_model)(model)
+    finally:
+        pm.rename_symbols = orig
+    names = ct.Names()
+    thetas = pm.get_thetas(model).names
+    cm = model.random_variables.covariance_matrix
+    cov = []
+    for r in range(cm.rows):
+        for c in range(r + 1):
+            if cm[r, c] != 0:
+                cov.append((r + 1, c + 1, str(opaque(cm[r, c]))))
+    etas, epss = model.random_variables.etas.names, model.random_variables.epsilons.names
+    known = model.parameters.names + model.random_variables.names + model.datainfo.names + ['t']
+
+    def nl(prefix, n):
+        return ct.lst([ct.pair(ct.nat(i), names.p(f'{prefix}_{i}')) for i in range(1, n + 1)])
+
+    def nl2(prefix):
+        return ct.lst([ct.tup(ct.nat(r), ct.nat(c), names.p(f'{prefix}_{r}{c}')) for r, c, _ in cov])
+    term = ("(mkK " + ct.lst([names.p(x) for x in thetas]) + " "
+            + ct.lst([ct.tup(ct.nat(r), ct.nat(c), names.p(e)) for r, c, e in cov]) + " "
+            + ct.lst([names.p(x) for x in etas]) + " " + ct.lst([names.p(x) for x in epss]) + "\n  "
+            + nl('theta', len(thetas)) + " " + nl('eta', len(etas)) + " " + nl('epsilon', len(epss)) + "\n  "
+            + nl2('omega') + " " + nl2('sigma') + "\n  "
+            + ct.lst([ct.pair(names.p(k), names.p(v)) for k, v in cap['d']]) + "\n  "
+            + ct.lst([names.p(x) for x in known]) + "\n  " + stms_term(model.statements, names) + ")")
+    return term
+
+
+def greek_oracle(ctx, n, greekify=None):
+    cdir = corpus_dir(ctx)
+    starts, steps = corpus_starts(cdir), corpus_steps()
+    models = []
+    for s in ('pheno', 'moxo', 'basic_iv', 'basic_oral'):
+        models.append((s, starts[s]()))
+    for st in ('create_joint_distribution_2', 'add_peripheral_compartment', 'set_combined_error_model', 'set_iiv_on_ruv',
+               'fix_first_sigma', 'add_lag_time'):
+        for s in ('pheno', 'basic_oral'):
+            try:
+                models.append((f'{s}+{st}', steps[st](starts[s]())))
+            except Exception:
+                pass
+    for _ in range(n):
+        spec = gen_spec(ctx.rng)
+        try:
+            models.append(('gen:' + spec['rvs'], build_model(spec)))
+        except Exception:
+            pass
+    terms, kept = [], []
+    for name, m in models:
+        try:
+            terms.append(observe_greek(m, greekify))
+            kept.append(name)
+        except (sc.Unconvertible, RecursionError, TypeError):
+            ctx.coverage['greek_skipped'] = ctx.coverage.get('greek_skipped', 0) + 1
+        except Exception as e:
+            ctx.violation(f'greekify_model raises {type(e).__name__}: {e}'[:200], {'greek_model': name})
+    verdicts = ctx.run_cases('greek', IMPORTS, 'kcase', terms, 'verdict_greek', shard=30)
+    stats = {'models': len(kept), 'not_injective_on_model_names': 0, 'targets_not_distinct': 0, 'targets_not_fresh': 0}
+    for name, v in zip(kept, verdicts):
+        if 60 in v:
+            ctx.broken.append(f'correspondence C07 model vs implementation: greekify_model renaming table differs from model on {name}')
+        stats['not_injective_on_model_names'] += 1 if 251 in v else 0
+        stats['targets_not_distinct'] += 1 if 252 in v else 0
+        stats['targets_not_fresh'] += 1 if 253 in v else 0
+    ctx.coverage['greekify_table'] = stats
+    return len(kept)
+
+
 def run(ctx):
     # the staging file known_findings.d/C07.json replaces entries of known_findings.json by id (as the maintainer's
     # merge does)
@@ -994,9 +1245,9 @@ def run(ctx):
                                             'src/pharmpy/modeling/parameters.py',
                                             'src/pharmpy/modeling/random_variables.py')
     finding_probes(ctx)
-    reg = sorted((VERIF / 'regress' / 'C07').glob('*.json'))
+    reg = [p for p in sorted((VERIF / 'regress' / 'C07').glob('*.json')) if not p.name.startswith('mu-')]
     specs = [json.loads(p.read_text()) for p in reg]
-    n = 350 if ctx.tier == 'quick' else 5000
+    n = 240 if ctx.tier == 'quick' else 5000
     specs += [gen_spec(ctx.rng) for _ in range(n)]
     kept, verdicts, infos, stats = run_specs(ctx, specs, 'gen')
     ctx.coverage['evaluations'] = sum(i['nqueries'] for i in infos)
@@ -1029,9 +1280,12 @@ def run(ctx):
         'reassigning_programs': sum(1 for s in kept if len({l for l, _ in s['stmts']}) < len(s['stmts'])),
     }
     ctx.coverage['samples'] = [{'spec': s, 'tags': v} for s, v in list(zip(kept, verdicts))[:4]]
-    ncorp = corpus_oracle(ctx, 40 if ctx.tier == 'quick' else 500)
+    ncorp = corpus_oracle(ctx, 25 if ctx.tier == 'quick' else 500)
     ctx.coverage['evaluations'] += ncorp
     ctx.coverage['evaluations'] += gradient_oracle(ctx, 60 if ctx.tier == 'quick' else 600)
+    mspecs, _ = mu_oracle(ctx, 120 if ctx.tier == 'quick' else 1500)
+    ctx.coverage['evaluations'] += greek_oracle(ctx, 20 if ctx.tier == 'quick' else 200)
+    ctx.coverage['evaluations'] += len(mspecs)
 
 
 def replay(ctx, rep):
@@ -1046,6 +1300,11 @@ def replay(ctx, rep):
         tags = ctx.run_cases('replay', IMPORTS, 'pcase', [term], 'verdict_pair')[0]
         print('tags', tags, [OTAGS.get(t, t) for t in tags])
         return 1 if any(t in OTAGS for t in tags) else 0
+    if 'mu_spec' in rep:
+        term, info = observe_mu(rep['mu_spec'], random.Random('r'))
+        tags = ctx.run_cases('replay', MU_IMPORTS, 'mcase', [term], 'verdict_mu')[0]
+        print('mu_spec', json.dumps(rep['mu_spec']), 'tags', tags, [MTAGS.get(t, t) for t in tags])
+        return 1 if {50, 51, 52, 53, 54} & set(tags) else 0
     if 'grad_spec' in rep:
         tags = ctx.run_cases('replay', IMPORTS, 'gcase', [observe_grad(rep['grad_spec'], random.Random('r'))],
                              'verdict_grad')[0]
